@@ -70,16 +70,22 @@ varint_from_source(Source *source, const size_t maxoctets, union varint64 *n)
 {
     n->u = 0u;
 
-    for (size_t i = 0u; i < maxoctets; ++i) {
+    for (size_t i = 0u; i < maxoctets; /* with every octet delivered */) {
         unsigned char data;
         const int rc = source_get_octet(source, &data);
-        const unsigned char bits = data & VARINT_DATA_MASK;
-        n->u |= (uint64_t)bits << (i * VARINT_DATA_BITS);
         if (rc < 0) {
             return rc;
-        } else if (varint_done(data)) {
+        } else if (rc == 0) {
+            /* The driver delivered nothing (allowed, see endpoints/core.c):
+             * There is no octet to look at, ask again. */
+            continue;
+        }
+        const unsigned char bits = data & VARINT_DATA_MASK;
+        n->u |= (uint64_t)bits << (i * VARINT_DATA_BITS);
+        if (varint_done(data)) {
             return (int)(i + 1);
         }
+        ++i;
     }
 
     return -EILSEQ;
